@@ -203,7 +203,7 @@ impl Check for CpPoolHistory {
             .boxed()
     }
     fn cases(&self, tier: Tier) -> u32 {
-        tier.pick(16_000, 1_500_000)
+        tier.pick(16_000, 750_000)
     }
     fn min_nontrivial(&self) -> f64 {
         0.02
